@@ -14,7 +14,7 @@
    All intervals are covered: every open/closed pattern, points, ends at / around zero, and no ordering
    hypothesis a <= b is needed (membership of x makes the interval non-empty).                     *)
 From Coq Require Import ZArith QArith List Bool.
-From LP Require Import Scalar ScalarProofs IntervalArith IntervalArithProofs.
+From LP Require Import Scalar ScalarProofs IntervalArith IntervalArithProofs IntervalArithSetProofs.
 Import ListNotations.
 Local Open Scope Q_scope.
 
@@ -104,6 +104,62 @@ Print Assumptions C15_dy_contains_zero.
 Theorem C15_dy_contains : forall I q, dwf I -> dy_wf q -> (di_contains I q = true <-> din (QofD q) I).
 Proof. exact di_contains_spec. Qed.
 Print Assumptions C15_dy_contains.
+
+(* ---- 2b. the rest of dyadic_interval.h (isolating intervals of algebraic numbers and feasibility sets are built
+        on these): set operations against the membership predicate.  dord I: a non-point interval has a < b. *)
+Theorem C15_dy_disjoint_sound : forall I1 I2 z, dwf I1 -> dwf I2 -> di_disjoint I1 I2 = true -> din z I1 -> din z I2 -> False.
+Proof. exact di_disjoint_sound. Qed.
+Print Assumptions C15_dy_disjoint_sound.
+Theorem C15_dy_disjoint_complete : forall I1 I2, dwf I1 -> dwf I2 -> dord I1 -> dord I2 ->
+  di_disjoint I1 I2 = false -> exists z, din z I1 /\ din z I2.
+Proof. exact di_disjoint_complete. Qed.
+Print Assumptions C15_dy_disjoint_complete.
+Theorem C15_dy_intersection : forall I1 I2 J, dwf I1 -> dwf I2 -> di_intersection I1 I2 = Some J ->
+  dwf J /\ forall z, din z J <-> din z I1 /\ din z I2.
+Proof. exact di_intersection_spec. Qed.
+Print Assumptions C15_dy_intersection.
+Theorem C15_dy_equals_sound : forall I1 I2 z, dwf I1 -> dwf I2 -> di_equals I1 I2 = true -> (din z I1 <-> din z I2).
+Proof. exact di_equals_sound. Qed.
+Print Assumptions C15_dy_equals_sound.
+Theorem C15_dy_cmp_integer : forall I k, dwf I -> dord I ->
+  (di_cmp_integer I k = 0%Z <-> din (inject_Z k) I) /\
+  ((0 < di_cmp_integer I k)%Z -> forall z, din z I -> inject_Z k < z) /\
+  ((di_cmp_integer I k < 0)%Z -> forall z, din z I -> z < inject_Z k).
+Proof. exact di_cmp_integer_spec. Qed.
+Print Assumptions C15_dy_cmp_integer.
+Theorem C15_dy_cmp_dyadic : forall I q, dwf I -> dord I -> dy_wf q ->
+  (di_cmp_dyadic I q = 0%Z <-> din (QofD q) I) /\
+  ((0 < di_cmp_dyadic I q)%Z -> forall z, din z I -> QofD q < z) /\
+  ((di_cmp_dyadic I q < 0)%Z -> forall z, din z I -> z < QofD q).
+Proof. exact di_cmp_dyadic_spec. Qed.
+Print Assumptions C15_dy_cmp_dyadic.
+Theorem C15_dy_cmp_rational : forall I q, dwf I -> dord I -> q_wf q ->
+  (di_cmp_rational I q = 0%Z <-> din (QofR q) I) /\
+  ((0 < di_cmp_rational I q)%Z -> forall z, din z I -> QofR q < z) /\
+  ((di_cmp_rational I q < 0)%Z -> forall z, din z I -> z < QofR q).
+Proof. exact di_cmp_rational_spec. Qed.
+Print Assumptions C15_dy_cmp_rational.
+Theorem C15_dy_set_a : forall I a ao J z, dwf I -> dy_wf a -> (ipt I = true -> QofD a == QofD (ia I) -> ao = false) ->
+  di_set_a I a ao = Some J ->
+  (din z J <-> (QofD a < z \/ (QofD a == z /\ ao = false)) /\ upper_of QofD I z).
+Proof. exact di_set_a_spec. Qed.
+Print Assumptions C15_dy_set_a.
+Theorem C15_dy_set_b : forall I b bo J z, dwf I -> dy_wf b -> di_set_b I b bo = Some J ->
+  (din z J <-> lower_of QofD I z /\ (z < QofD b \/ (z == QofD b /\ bo = false))).
+Proof. exact di_set_b_spec. Qed.
+Print Assumptions C15_dy_set_b.
+Theorem C15_dy_collapse_to : forall I q z, din z (di_collapse_to I q) <-> QofD q == z.
+Proof. exact di_collapse_to_spec. Qed.
+Print Assumptions C15_dy_collapse_to.
+(* bisection step of root refinement: the halves add nothing and lose at most the mid point, and only when
+   both split flags are open *)
+Theorem C15_dy_split : forall I lo ro L R, dwf I -> dord I -> di_from_split I lo ro = Some (L, R) ->
+  let m := (QofD (ia I) + QofD (ib I)) * (1 # 2) in
+  dwf L /\ dwf R /\
+  forall z, ((din z L \/ din z R) -> din z I) /\
+            (din z I -> din z L \/ din z R \/ (z == m /\ lo = true /\ ro = true)).
+Proof. exact di_from_split_spec. Qed.
+Print Assumptions C15_dy_split.
 
 (* ---- 3. the arithmetic fact behind mul, for ALL end points including +-infinity (0 * inf = 0): a product
         of members is admitted, as a lower (upper) end, by one of the four corner products carrying the OR of
